@@ -411,6 +411,26 @@ func runSiftool(seed uint64, n, shards int, out, tmp string, maxops int, thoroug
 			if (c.Kind == "dump" || c.Kind == "info" || c.Kind == "list" || c.Kind == "header") && !bytes.Equal(after, cur) {
 				bad(k, "%s changed the file", c.Kind)
 			}
+			if ok && derr == nil && (c.Kind == "header" || c.Kind == "list" || c.Kind == "info") {
+				s.OracleRuns["reports-show-the-true-values"]++
+				id, _ := strconv.ParseUint(c.ID, 10, 32)
+				if want, applies := expectedReport(c.Kind, cur, uint32(id)); applies && normReport(string(so)) != want {
+					got := normReport(string(so))
+					gl, wl := strings.Split(got, "\n"), strings.Split(want, "\n")
+					i := 0
+					for i < len(gl) && i < len(wl) && gl[i] == wl[i] {
+						i++
+					}
+					g, w := "(nothing)", "(nothing)"
+					if i < len(gl) {
+						g = gl[i]
+					}
+					if i < len(wl) {
+						w = wl[i]
+					}
+					bad(k, "%s report differs from the true values at line %d: printed %q, expected %q", c.Kind, i+1, g, w)
+				}
+			}
 			if ok && derr == nil {
 				switch c.Kind {
 				case "header":
